@@ -313,14 +313,14 @@ def check(case: dict[str, Any], rec: Any) -> None:
             if s["reg"] is not None and s["op"] is not None:
                 nontrivial = True
             got = powers[-1]
-            if abs(got - (reg + op)) > 1e-6:
+            if not abs(got - (reg + op)) <= 1e-6:
                 rec.violation("request-differs-from-sum-of-targets", {**w, "expected_sum": reg + op})
             else:
                 # ... and that is what the group's (subscribed) actors have been told last
                 for kind_op, told, cur in ((False, rr, s["reg"]), (True, ro, s["op"])):
                     if (g, kind_op) in subscribed_kinds and cur is not None:
                         rec.count("reported_targets_compared")
-                        if told is None or abs(told - cur) > 1e-6:
+                        if told is None or not abs(told - cur) <= 1e-6:
                             rec.violation("request-sent-but-the-group's-actors-were-not-told-the-new-target",
                                           {**w, "operating_point_actors": kind_op, "last_reported": told, "current": cur})
             b = st["bounds"][g]
@@ -338,7 +338,7 @@ def check(case: dict[str, Any], rec: Any) -> None:
     if "doc" in case:
         rec.bucket("doc-table")
         reqs = [r["power"] for st in out["steps"] for r in st["requests"]]
-        if not reqs or abs(reqs[-1] - case["expect_last_request"]) > 1e-6:
+        if not reqs or not abs(reqs[-1] - case["expect_last_request"]) <= 1e-6:
             rec.violation("documented-table-distributed-power", {"doc": case["doc"], "requests": reqs,
                                                                  "expected": case["expect_last_request"]})
         final = out["steps"][-1]["reports"]
